@@ -29,6 +29,8 @@ CONSTANTS D,          \* system dimension
           Controls,   \* set of control schedules; a schedule is a set of entries
                       \*   <<step, post?, ctlId, insertion index, kind>>, kind "int" (time given as step),
                       \*   "f-" / "f+" (time given as a float a little before / after the step's time)
+          Dephase,    \* TRUE: every half step also applies pure dephasing exp(-g (z_k - z_b)^2), z_t = t,
+                      \*  recorded as a symbolic factor <<"d", (z_k - z_b)^2>> (parameter-dependent Lindblad term)
           FixedPlan,  \* << >>: gates are chosen freely from the alphabets; otherwise the exact plan to follow
           Devs,       \* enabled deviations (known findings), {} = strict specification
           Emit
@@ -54,7 +56,7 @@ VARIABLES pc,        \* <<r, phase>> position in the step loop
 vars == <<pc, terms, ctl, recs, plan>>
 
 Pairs == (0..(D-1)) \X (0..(D-1))
-Dead == [alive |-> FALSE, k |-> <<>>, b |-> <<>>, ph |-> 0, f |-> <<>>]
+Dead == [alive |-> FALSE, k |-> <<>>, b |-> <<>>, ph |-> 0, f |-> <<>>, tr |-> <<>>]
 
 \* ---- gates on one side (ket or bra): return <<new side state, phase increment>> ----
 SysGate(q, g) ==         \* diagonal phase first, then cyclic shift
@@ -76,7 +78,17 @@ ApplyBoth(tm, gk(_), gb(_)) ==    \* unitary: same gate on ket and bra, bra phas
     ELSE LET rk == gk(tm.k)  rb == gb(tm.b) IN
          [tm EXCEPT !.k = rk[1], !.b = rb[1], !.ph = (tm.ph + rk[2] - rb[2]) % M]
 
-ApplySys(g)      == [p \in Pairs |-> ApplyBoth(terms[p], LAMBDA q : SysGate(q, g), LAMBDA q : SysGate(q, g))]
+\* a half-step propagator; the term remembers the system levels <<ket, bra>> it had when the gate
+\* acted (tr): the derivative of the gate with respect to a phase or dephasing parameter multiplies
+\* the term by a function of exactly these levels (C08)
+ApplySys(g) ==
+    [p \in Pairs |->
+        LET tm == terms[p] IN
+        IF ~tm.alive THEN tm
+        ELSE LET x == ApplyBoth(tm, LAMBDA q : SysGate(q, g), LAMBDA q : SysGate(q, g))
+                 dz == (tm.k[1] - tm.b[1]) * (tm.k[1] - tm.b[1])
+             IN [x EXCEPT !.tr = Append(tm.tr, <<tm.k[1], tm.b[1]>>),
+                          !.f = IF Dephase /\ dz # 0 THEN Append(tm.f, <<"d", dz>>) ELSE tm.f]]
 ApplyEnv(e, nm)  == [p \in Pairs |-> ApplyBoth(terms[p], LAMBDA q : EnvGate(q, e, nm), LAMBDA q : EnvGate(q, e, nm))]
 
 Prime(r) == << 2, 3, 5, 7, 11, 13, 17, 19 >>[r + 1]
@@ -124,12 +136,12 @@ Reduced(tms) ==
         L(T) == IF T = {} THEN <<>>
                 ELSE LET p == CHOOSE x \in T : TRUE IN
                      << [s |-> p[1], sp |-> p[2], kt |-> tms[p].k[1], bt |-> tms[p].b[1],
-                         ph |-> tms[p].ph, f |-> tms[p].f] >> \o L(T \ {p})
+                         ph |-> tms[p].ph, f |-> tms[p].f, tr |-> tms[p].tr] >> \o L(T \ {p})
     IN L(S)
 
 Init ==
     /\ pc = <<0, "pre">>
-    /\ terms = [p \in Pairs |-> [alive |-> TRUE, k |-> <<p[1]>> \o A0, b |-> <<p[2]>> \o A0, ph |-> 0, f |-> <<>>]]
+    /\ terms = [p \in Pairs |-> [alive |-> TRUE, k |-> <<p[1]>> \o A0, b |-> <<p[2]>> \o A0, ph |-> 0, f |-> <<>>, tr |-> <<>>]]
     /\ ctl \in Controls
     /\ recs = <<>>
     /\ plan = <<>>
